@@ -2,6 +2,8 @@
 from .. import gen, probes
 from ..ref import secp, base58 as rb58, addr as raddr
 
+from ..core import refused
+
 PROP = "C09"
 LEVEL = "exploration"
 SHARDS = {"quick": 8, "thorough": 16}
@@ -122,7 +124,7 @@ def judge_reject_scalar(ctx, case):
     """Construction from an out-of-range / wrong-length secret must raise."""
     from btc_hd_wallet.keys import PrivateKey
     via = case["via"]
-    try:
+    def attempt():
         if via == "int":
             r = PrivateKey(case["value"])
         elif via == "from_int":
@@ -133,9 +135,8 @@ def judge_reject_scalar(ctx, case):
             r = PrivateKey.parse(case["raw"])
         else:  # correctly checksummed WIF carrying the bad secret
             r = PrivateKey.from_wif(rb58.encode_check(case["payload"]))
-        ok, obs, outcome = False, bytes(r), "returned"
-    except Exception as e:  # noqa
-        ok, obs, outcome = True, e, "raised:" + type(e).__name__
+        return bytes(r)
+    ok, obs, outcome = refused(attempt)          # (stable refusal: the same bad secret offered three times in a row)
     return ctx.judge("reject_scalar", ok, case, "raise", obs, cls="rejk|%s|%s" % (via, case["tag"]), outcome=outcome,
                      mech="C09.reject_scalar.accepted")
 
